@@ -43,7 +43,7 @@ def c03(A, ctx, tier):
     descent.r_guard(A, ctx, dict(exempt={"FISTA", "PDCD_WS"}, floor=4))
     descent.r_step(A, ctx, dict(floor=12))
     descent.r_ls(A, ctx, dict(floor=12))
-    formulas.r_istep_bound(A, ctx, dict(floor=7))
+    formulas.r_istep_bound(A, ctx, dict(floor=9))
     reweight.r_reweight(A, ctx, dict(floor=9))
     warm.r_path(A, ctx, dict(floor=8))
     descent.r_candidate(A, ctx, dict(floor=3))
